@@ -192,6 +192,13 @@ async def run_e2e(job):
     M.core_events.register_handler(make_recorder(M, vc_log, name + '.'))
     res = {'syncs': [], 'edits': [], 'errors': [], 'vc': vc_log}
 
+    if job.get('pre_restore') is not None:
+        # a restore of the slave devices (PUT /devices) before the slave is added; an entry refused by the per-entry validation
+        # makes it fail with 400: the master must work as before afterwards
+        M.settings.core.backup_support = True
+        rr = await api_result(M.slaves_api.put_slave_devices(Handler('PUT', '/api/devices'), params=copy.deepcopy(job['pre_restore'])))
+        res['pre_restore_result'] = jsonable(rr[:3])
+
     params = {'scheme': 'http', 'host': 'sim', 'port': 80, 'path': '/', 'admin_password': ''}
     if mode == 'listen':
         params['listen_enabled'] = True
@@ -375,6 +382,7 @@ async def run_e2e(job):
         res.setdefault('op_marks', []).append([len(sim.requests), len(simslave.FakeAsyncHTTPClient.attempts), vloop.vtime_ms()])
         await run_op(i, kind, args)
     res['requests'] = jsonable(sim.requests)
+    res['slave_passwords'] = jsonable(sim.passwords)
     res['refused_by_client'] = jsonable(simslave.FakeAsyncHTTPClient.refused_by_client)
     res['attempts'] = jsonable(simslave.FakeAsyncHTTPClient.attempts)
     res['delivered'] = jsonable(sim.delivered)
